@@ -260,6 +260,8 @@ func capRun(c c37Case) (out capOut) {
 	}()
 	if c.Mode == "srv" {
 		srvBody(ctx, c)
+	} else if c.Mode == "hgt" {
+		hgtBody(ctx, c)
 	} else {
 		capBody(ctx, c)
 	}
